@@ -327,6 +327,11 @@ class Documentable:
         obj: Documentable = self
         for i, p in enumerate(parts):
             full_name = obj._localNameToFullName(p)
+            if i != 0 and isinstance(obj, Class) and p not in obj.contents \
+                    and p not in obj._localNameToFullName_map:
+                # Attribute access on a class never sees the names of the
+                # scopes enclosing the class statement.
+                full_name = p
             if full_name == p and i != 0:
                 # The local name was not found.
                 # If we're looking at a class, we try our luck with the inherited members
